@@ -5,6 +5,7 @@ package main
 
 import (
 	"errors"
+	"math/big"
 	"path"
 	"regexp"
 	"strconv"
@@ -54,7 +55,7 @@ func init() {
 		return strings.Join(out, ",")
 	}
 	register(&Prop{ID: "C06", Gen: c06Gen, Oracle: c06Oracle,
-		Rule: "paths of 1-5 elements from templates (reserved Windows names in random case with/without extension, x~1/~1x/.x/x./.., major suffixes v0/v1/v2/v01/v2.1, gopkg.in forms) over an alphabet of every ASCII punctuation char, letters, digits, é ß U+212A U+017F a combining mark U+FFFD and ill-formed UTF-8, plus one-step mutations and random bytes; versions from the C04 generator steered to the path's major; glob lists with empty items, trailing slashes, * ? [a-z] and malformed [; non-trivial = valid UTF-8, non-empty, no //, no trailing slash (reaches checkElem), for non-path ops every case; distinct by op line"})
+		Rule: "paths of 1-5 elements from templates (reserved Windows names in random case with/without extension, x~1/~1x/.x/x./.., x~DIGITS with digit runs of 1-40 digits around every power of two and ten incl. leading zeros signs and underscores, major suffixes v0/v1/v2/v01/v2.1, gopkg.in forms) over an alphabet of every ASCII punctuation char, letters, digits, é ß U+212A U+017F a combining mark U+FFFD and ill-formed UTF-8, plus one-step mutations and random bytes; versions from the C04 generator steered to the path's major; glob lists with empty items, trailing slashes, * ? [a-z] and malformed [; non-trivial = valid UTF-8, non-empty, no //, no trailing slash (reaches checkElem), for non-path ops every case; distinct by op line"})
 }
 
 // ---- canonical error kinds
@@ -185,6 +186,79 @@ func c06PlainWord(r *Rand) string {
 	return r.Bytes(1+r.Intn(6), c06Lower+"0123456789-_")
 }
 
+// Input class "numeric run of any width" (added for the short-name rule "~ followed by one or more ASCII
+// digits", and used for major suffixes too). The rule is about digit STRINGS of any length; the templates used to
+// carry runs of at most two digits (x~1, x~12, x~01), so an implementation that reads the run as a number (fixed-width
+// parse, overflow, sign/underscore/leading-zero handling) was indistinguishable from one that scans characters.
+// c06NumFixed is a small exhaustive family: 2^k-1, 2^k, 2^k+1 for every machine-integer width k, and for every length
+// 1..40 the runs 99…9, 10…0 and 00…07 (leading zeros).
+var c06NumFixed = func() []string {
+	var out []string
+	one := big.NewInt(1)
+	for _, k := range []uint{7, 8, 15, 16, 31, 32, 53, 63, 64, 65, 127, 128} {
+		p := new(big.Int).Lsh(one, k)
+		out = append(out, new(big.Int).Sub(p, one).String(), p.String(), new(big.Int).Add(p, one).String())
+	}
+	for n := 1; n <= 40; n++ {
+		out = append(out, strings.Repeat("9", n), "1"+strings.Repeat("0", n-1), strings.Repeat("0", n-1)+"7")
+	}
+	return out
+}()
+
+// c06DigitRun returns a non-empty string of ASCII digits: a boundary run, a boundary run behind leading zeros, a run
+// whose length is near the decimal width of a 32/64/128-bit integer, or random digits of 1..40 (thorough: 1..100) digits.
+func c06DigitRun(r *Rand) string {
+	switch r.Intn(6) {
+	case 0, 1:
+		return r.Pick(c06NumFixed)
+	case 2:
+		return strings.Repeat("0", 1+r.Intn(4)) + r.Pick(c06NumFixed)
+	case 3:
+		return r.Bytes(1, "123456789") + r.Bytes([]int{8, 9, 10, 18, 19, 20, 38, 39}[r.Intn(8)]+r.Intn(2), digits)
+	}
+	n := 1 + r.Intn(40)
+	if thorough {
+		n = 1 + r.Intn(100)
+	}
+	return r.Bytes(n, digits)
+}
+
+// c06ShortNameElem: an element built around "~" + digit run: the rejected shapes (run at the end of the part before
+// the first dot) and the near misses that stay valid (sign, underscore, letter or tilde after/inside the run, run after
+// the first dot, no tilde).
+func c06ShortNameElem(r *Rand) string {
+	w := c06PlainWord(r)
+	d := c06DigitRun(r)
+	switch r.Intn(16) {
+	case 0, 1, 2:
+		return w + "~" + d
+	case 3:
+		return w + "~" + d + "." + r.Pick([]string{"txt", "go", "v1", "v2", "7"})
+	case 4:
+		return "~" + d
+	case 5:
+		return w + "~b~" + d
+	case 6:
+		return c06RandCase(r, r.Pick(c06Reserved)) + "~" + d
+	case 7:
+		return w + "~" + d + r.Pick([]string{"z", "~", "_", "-", "e3", "x0"})
+	case 8:
+		return w + "~" + r.Pick([]string{"+", "-", "_", "0x", "0b", "0o", " "}) + d
+	case 9:
+		i := r.Intn(len(d) + 1)
+		return w + "~" + d[:i] + r.Pick([]string{"_", "-", "~", "a", "٣", "\xff"}) + d[i:]
+	case 10:
+		return w + ".~" + d
+	case 11:
+		return w + d
+	case 12:
+		return w + "~" + d + "~" + c06DigitRun(r)
+	case 13:
+		return w + "~" + d + "." + w + "~" + c06DigitRun(r)
+	}
+	return w + "~" + d
+}
+
 var c06MajorElems = []string{"v0", "v1", "v2", "v3", "v10", "v01", "v2.1", "v2.0", "v1.2.3", "v", "v2-unstable", "V2", "v2a", "vv2", "v002", "v20"}
 
 // c06Elem returns one path element (usually close to valid).
@@ -214,6 +288,9 @@ func c06Elem(r *Rand) string {
 		w := c06PlainWord(r)
 		return r.Pick([]string{"." + w, w + ".", "..", ".", "...", w + ".." + w, ".." + w, w + "." + w, ".~1", "." + w + "."})
 	case 4: // major-like
+		if r.Chance(20) {
+			return "v" + c06DigitRun(r)
+		}
 		return r.Pick(c06MajorElems)
 	case 5: // one char from the whole alphabet in a plain word
 		w := c06PlainWord(r)
@@ -223,6 +300,8 @@ func c06Elem(r *Rand) string {
 		return c06Word(r, 1+r.Intn(5))
 	case 7:
 		return c06RandCase(r, c06PlainWord(r))
+	case 9: // short-name shapes with digit runs of any width
+		return c06ShortNameElem(r)
 	case 8:
 		return c06PlainWord(r) + r.Pick([]string{"+", "++", " x", "@v1", "é", "世界", "!", "%20", "=", ",", "[1]", "{a}", "^", "$", "#", "&", "(x)", "*", "?", "\\x", ":", ";", "<", ">", "|", "\"", "'", "`"})
 	}
@@ -402,6 +481,15 @@ func c06Gen(g *Gen, n int) {
 			g.Emit("module.checkfilepath "+hx("a/"+e), true, "reserved-sweep")
 			g.Emit("module.checkimportpath "+hx("a/"+e), true, "reserved-sweep")
 		}
+	}
+	// fixed boundary stream: "~" + every run of c06NumFixed (see there), rejected shapes and near misses
+	for _, d := range c06NumFixed {
+		g.Emit("module.checkpath "+hx("x.y/z~"+d), true, "tilde-run-sweep")
+		g.Emit("module.checkimportpath "+hx("x.y/a~b~"+d+".txt/w"), true, "tilde-run-sweep")
+		g.Emit("module.checkfilepath "+hx("x.y/z~"+d), true, "tilde-run-sweep")
+		g.Emit("module.checkpath "+hx("x.y/z~"+d+"z"), true, "tilde-run-sweep")
+		g.Emit("module.checkimportpath "+hx("x.y/z~+"+d), true, "tilde-run-sweep")
+		g.Emit("module.check "+hx("gopkg.in/z~"+d+".v1")+" "+hx("v1.0.0"), true, "tilde-run-sweep")
 	}
 	for i := 0; i < n; i++ {
 		switch g.Intn(26) {
@@ -608,59 +696,72 @@ func c06SpecMatchPrefix(globs, target string) bool {
 
 func c06Oracle(g *Gen, n int) {
 	r := g.Rand
+	// fixed boundary stream (same family as in c06Gen): "~" + digit run of every width, in the shapes the short-name
+	// rule names and in the near misses it does not
+	for _, d := range c06NumFixed {
+		for _, e := range []string{"z~" + d, "z~" + d + ".txt", "a~b~" + d, "~" + d, "z~" + d + "z", "z~" + d + "~", "z~-" + d, "z~_" + d, "z.~" + d, "z" + d} {
+			c06OraclePath(g, r, "x.y/"+e, false)
+			c06OraclePath(g, r, "example.com/a/"+e+"/v2", false)
+		}
+		c06OraclePath(g, r, "gopkg.in/z~"+d+".v1", false)
+	}
 	for i := 0; i < n; i++ {
-		p := c06Path(r)
-		g.Case("path")
-		mod, imp, file := module.CheckPath(p) == nil, module.CheckImportPath(p) == nil, module.CheckFilePath(p) == nil
-		// inclusions
-		if mod && !imp {
-			g.Fail("valid module path is not a valid import path", strconv.Quote(p), "module.checkpath "+hx(p), "module.checkimportpath "+hx(p))
+		c06OraclePath(g, r, c06Path(r), i%3 == 0)
+	}
+}
+
+// c06OraclePath states the property for one path p (and a version steered to p's major suffix).
+func c06OraclePath(g *Gen, r *Rand, p string, withGlob bool) {
+	g.Case("path")
+	mod, imp, file := module.CheckPath(p) == nil, module.CheckImportPath(p) == nil, module.CheckFilePath(p) == nil
+	// inclusions
+	if mod && !imp {
+		g.Fail("valid module path is not a valid import path", strconv.Quote(p), "module.checkpath "+hx(p), "module.checkimportpath "+hx(p))
+	}
+	if imp && !file {
+		g.Fail("valid import path is not a valid file path", strconv.Quote(p), "module.checkimportpath "+hx(p), "module.checkfilepath "+hx(p))
+	}
+	// exactly when the documented rules hold
+	if mod != c06SpecModPath(p) {
+		g.Fail("CheckPath disagrees with the documented module path rules", strconv.Quote(p), "module.checkpath "+hx(p))
+	}
+	if imp != c06SpecPath(c06Imp, p) {
+		g.Fail("CheckImportPath disagrees with the documented import path rules", strconv.Quote(p), "module.checkimportpath "+hx(p))
+	}
+	if file != c06SpecPath(c06File, p) {
+		g.Fail("CheckFilePath disagrees with the documented file path rules", strconv.Quote(p), "module.checkfilepath "+hx(p))
+	}
+	// split shape
+	pre, maj, ok := module.SplitPathVersion(p)
+	if mod {
+		shape := maj == "" || c06SlashMajorRE.MatchString(maj) || strings.HasPrefix(p, "gopkg.in/") && c06DotMajorRE.MatchString(maj)
+		if !ok || pre+maj != p || !shape {
+			g.Fail("SplitPathVersion of a valid module path: prefix+suffix != path or suffix not empty, /vN (N>=2), .vN[-unstable]", strconv.Quote(p)+" -> "+strconv.Quote(pre)+" "+strconv.Quote(maj), "module.splitpathversion "+hx(p))
 		}
-		if imp && !file {
-			g.Fail("valid import path is not a valid file path", strconv.Quote(p), "module.checkimportpath "+hx(p), "module.checkfilepath "+hx(p))
+	}
+	if !ok && (pre != p || maj != "") {
+		g.Fail("SplitPathVersion with ok=false does not return (path, \"\")", strconv.Quote(p), "module.splitpathversion "+hx(p))
+	}
+	// Check(p, v) <=> CheckPath(p) && IsValid(v) && major matches
+	v := c06VersionFor(r, maj)
+	g.Case("check")
+	got := module.Check(p, v) == nil
+	want := mod && semver.IsValid(v) && c06SpecMajorMatches(maj, v)
+	if got != want {
+		g.Fail("Check(path, version) is not CheckPath && IsValid && major-matches", strconv.Quote(p)+" "+strconv.Quote(v), "module.check "+hx(p)+" "+hx(v))
+	}
+	if mod && semver.IsValid(v) {
+		if module.MatchPathMajor(v, maj) != (module.CheckPathMajor(v, maj) == nil) {
+			g.Fail("MatchPathMajor != (CheckPathMajor == nil)", strconv.Quote(v)+" "+strconv.Quote(maj), "module.matchpathmajor "+hx(v)+" "+hx(maj))
 		}
-		// exactly when the documented rules hold
-		if mod != c06SpecModPath(p) {
-			g.Fail("CheckPath disagrees with the documented module path rules", strconv.Quote(p), "module.checkpath "+hx(p))
-		}
-		if imp != c06SpecPath(c06Imp, p) {
-			g.Fail("CheckImportPath disagrees with the documented import path rules", strconv.Quote(p), "module.checkimportpath "+hx(p))
-		}
-		if file != c06SpecPath(c06File, p) {
-			g.Fail("CheckFilePath disagrees with the documented file path rules", strconv.Quote(p), "module.checkfilepath "+hx(p))
-		}
-		// split shape
-		pre, maj, ok := module.SplitPathVersion(p)
-		if mod {
-			shape := maj == "" || c06SlashMajorRE.MatchString(maj) || strings.HasPrefix(p, "gopkg.in/") && c06DotMajorRE.MatchString(maj)
-			if !ok || pre+maj != p || !shape {
-				g.Fail("SplitPathVersion of a valid module path: prefix+suffix != path or suffix not empty, /vN (N>=2), .vN[-unstable]", strconv.Quote(p)+" -> "+strconv.Quote(pre)+" "+strconv.Quote(maj), "module.splitpathversion "+hx(p))
-			}
-		}
-		if !ok && (pre != p || maj != "") {
-			g.Fail("SplitPathVersion with ok=false does not return (path, \"\")", strconv.Quote(p), "module.splitpathversion "+hx(p))
-		}
-		// Check(p, v) <=> CheckPath(p) && IsValid(v) && major matches
-		v := c06VersionFor(r, maj)
-		g.Case("check")
-		got := module.Check(p, v) == nil
-		want := mod && semver.IsValid(v) && c06SpecMajorMatches(maj, v)
-		if got != want {
-			g.Fail("Check(path, version) is not CheckPath && IsValid && major-matches", strconv.Quote(p)+" "+strconv.Quote(v), "module.check "+hx(p)+" "+hx(v))
-		}
-		if mod && semver.IsValid(v) {
-			if module.MatchPathMajor(v, maj) != (module.CheckPathMajor(v, maj) == nil) {
-				g.Fail("MatchPathMajor != (CheckPathMajor == nil)", strconv.Quote(v)+" "+strconv.Quote(maj), "module.matchpathmajor "+hx(v)+" "+hx(maj))
-			}
-		}
-		// MatchPrefixPatterns = documented prefix-glob definition
-		if i%3 == 0 {
-			gl := c06GlobList(r)
-			t := c06TargetFor(r, gl)
-			g.Case("glob")
-			if module.MatchPrefixPatterns(gl, t) != c06SpecMatchPrefix(gl, t) {
-				g.Fail("MatchPrefixPatterns differs from the prefix-glob definition", strconv.Quote(gl)+" "+strconv.Quote(t), "module.matchprefixpatterns "+hx(gl)+" "+hx(t))
-			}
+	}
+	// MatchPrefixPatterns = documented prefix-glob definition
+	if withGlob {
+		gl := c06GlobList(r)
+		t := c06TargetFor(r, gl)
+		g.Case("glob")
+		if module.MatchPrefixPatterns(gl, t) != c06SpecMatchPrefix(gl, t) {
+			g.Fail("MatchPrefixPatterns differs from the prefix-glob definition", strconv.Quote(gl)+" "+strconv.Quote(t), "module.matchprefixpatterns "+hx(gl)+" "+hx(t))
 		}
 	}
 }
